@@ -7,7 +7,14 @@ package common
 //@ define hasFracName(pod *v1.Pod) bool = constants.GpuFractionContainerName in pod.Annotations
 //@ define noInitNamed(pod *v1.Pod, name string, n int) bool = forall j int :: 0 <= j && j < n ==> pod.Spec.InitContainers[j].Name != name
 //@ define noRegNamed(pod *v1.Pod, name string, n int) bool = forall j int :: 0 <= j && j < n ==> pod.Spec.Containers[j].Name != name
+//@ define firstInitNamed(pod *v1.Pod, name string, i int) bool = 0 <= i && i < len(pod.Spec.InitContainers) && pod.Spec.InitContainers[i].Name == name && noInitNamed(pod, name, i)
+//@ define firstRegNamed(pod *v1.Pod, name string, i int) bool = 0 <= i && i < len(pod.Spec.Containers) && pod.Spec.Containers[i].Name == name && noRegNamed(pod, name, i)
 
+// C19 (per-container selection): the fraction container is the container named by the
+// gpu-fraction-container-name annotation, searched among the init containers first, then the regular
+// ones (first match); without the annotation it is regular container 0; a name that matches no
+// container is an error.  No panic needs at least one regular container (admission's Mutate guards
+// this; see the report for the binder side).
 //@ func GetFractionContainerRef
 //@   props C19
 //@   requires pod != nil && len(pod.Spec.Containers) > 0
@@ -20,5 +27,10 @@ package common
 //@     invariant noInitNamed(pod, name, len(pod.Spec.InitContainers))
 //@     invariant noRegNamed(pod, name, rangeindex + 1)
 //@     decreases len(pod.Spec.Containers) - rangeindex
-//@   ensures [default] !hasFracName(pod) ==> result1 == nil && result0 != nil && result0.Index == 0 && result0.Type == gpusharingconfigmap.RegularContainer
+//@   ensures [nil-xor-err] (result0 == nil) == (result1 != nil)
+//@   ensures [default] !hasFracName(pod) ==> result1 == nil && result0 != nil && result0.Index == 0 && result0.Type == gpusharingconfigmap.RegularContainer && result0.Container != nil && result0.Container.Name == pod.Spec.Containers[0].Name
+//@   ensures [named-init] hasFracName(pod) && result1 == nil && result0.Type == gpusharingconfigmap.InitContainer ==> firstInitNamed(pod, fracName(pod), result0.Index) && result0.Container != nil && result0.Container.Name == fracName(pod)
+//@   ensures [named-regular] hasFracName(pod) && result1 == nil && result0.Type != gpusharingconfigmap.InitContainer ==> result0.Type == gpusharingconfigmap.RegularContainer && noInitNamed(pod, fracName(pod), len(pod.Spec.InitContainers)) && firstRegNamed(pod, fracName(pod), result0.Index) && result0.Container != nil && result0.Container.Name == fracName(pod)
+//@   ensures [not-found] hasFracName(pod) ==> (result1 != nil) == (noInitNamed(pod, fracName(pod), len(pod.Spec.InitContainers)) && noRegNamed(pod, fracName(pod), len(pod.Spec.Containers)))
+//@   ensures [init-first] hasFracName(pod) && !noInitNamed(pod, fracName(pod), len(pod.Spec.InitContainers)) ==> result1 == nil && result0.Type == gpusharingconfigmap.InitContainer
 //@ end
